@@ -505,6 +505,8 @@ class Machine:
                 return self.status
             ins = p.instrs[self.pc]
             self.steps += 1
+            if self.steps % 256 == 0:
+                sym.check_deadline()
             npc = self.step(ins)
             if self.status:
                 return self.status
